@@ -112,3 +112,16 @@ Theorem C05_fastsync_accept_iff :
       ps_id_matches ps real = true.
 Proof. exact @fs_accept_iff. Qed.
 Print Assumptions C05_fastsync_accept_iff.
+
+(* VerifyBlock on one decoded list object, called again for another block: the
+   k-th verdict is the verdict of a fresh call for the k-th block (a list
+   accepted for one block is not thereby accepted for another) *)
+Theorem C05_verify_stateless :
+  forall (sigT addrT : Type) (addr_eqb : addrT -> addrT -> bool)
+         (recover : vote_msg -> sigT -> option addrT),
+  forall round ps vals (items : list (Z * sigT)) blocks k h bid,
+    nth_error blocks k = Some (h, bid) ->
+    nth_error (verify_session addr_eqb recover round ps vals items blocks) k =
+    Some (verify_block addr_eqb recover h round bid ps vals items).
+Proof. exact @verify_session_stateless. Qed.
+Print Assumptions C05_verify_stateless.
